@@ -1,5 +1,5 @@
-From TLXV Require Import C17.Lru C17.Splay.
+From TLXV Require Import C17.Lru C17.LruSet C17.Splay.
 Require Extraction. Require ExtrOcamlBasic.
 Extraction Language OCaml.
-Extraction "../ocaml/gen/C17_model.ml" Lru.lrun Lru.lru_init Lru.lref_run Lru.lvalid
+Extraction "../ocaml/gen/C17_model.ml" Lru.lrun Lru.lru_init Lru.lref_run Lru.lvalid LruSet.krun LruSet.kset_init
   Splay.srun Splay.st_init Splay.destroy Splay.ledger_ok Splay.rrun Splay.abs_out.
